@@ -132,12 +132,12 @@ def showResult : Result → String
   | .badBlock => "bb"
 
 def showPool (s : Pool) : String :=
-  let p := sortNat (s.pool.map (·.tx.id))
+  let p := (s.pool.mergeSort (fun a b => a.tx.id ≤ b.tx.id)).map (fun e => toString e.tx.id ++ "@" ++ toString e.height)
   let sp := (s.spent.mergeSort (fun a b => opLe a.1 b.1)).map (fun e => showOp e.1 ++ ">" ++ toString e.2.id)
   let o := (s.orphans.mergeSort (fun a b => a.1.id ≤ b.1.id)).map (fun e => toString e.1.id ++ "." ++ toString e.2)
   let bp := (s.byPrev.mergeSort (fun a b => if a.1 = b.1 then a.2.id ≤ b.2.id else opLe a.1 b.1)).map
     (fun e => showOp e.1 ++ ">" ++ toString e.2.id)
-  "p=" ++ ids p ++ ";s=" ++ (if sp.isEmpty then "-" else joinWith "," sp) ++
+  "p=" ++ (if p.isEmpty then "-" else joinWith "," p) ++ ";s=" ++ (if sp.isEmpty then "-" else joinWith "," sp) ++
   ";o=" ++ (if o.isEmpty then "-" else joinWith "," o) ++ ";b=" ++ (if bp.isEmpty then "-" else joinWith "," bp)
 
 /-- Which of several orphans redeeming the same outpoint Go's map iteration tries first is not
